@@ -20,6 +20,7 @@ import (
 	"strings"
 
 	"github.com/mitchellh/copystructure"
+	"github.com/pkg/errors"
 
 	chart "helm.sh/helm/v4/pkg/chart/v2"
 )
@@ -243,8 +244,11 @@ func processImportValues(c *chart.Chart, merge bool) error {
 		for _, riv := range r.ImportValues {
 			switch iv := riv.(type) {
 			case map[string]interface{}:
-				child := iv["child"].(string)
-				parent := iv["parent"].(string)
+				child, okChild := iv["child"].(string)
+				parent, okParent := iv["parent"].(string)
+				if !okChild || !okParent {
+					return errors.Errorf("import-values of dependency %q: child and parent must be strings", r.Name)
+				}
 
 				outiv = append(outiv, map[string]string{
 					"child":  child,
@@ -257,11 +261,13 @@ func processImportValues(c *chart.Chart, merge bool) error {
 					slog.Warn("ImportValues missing table from chart", "chart", r.Name, slog.Any("error", err))
 					continue
 				}
-				// create value map from child to be merged into parent
+				// create value map from child to be merged into parent; the child
+				// table is copied so that a later import below the same parent
+				// path cannot be merged into the table itself
 				if merge {
-					b = MergeTables(b, pathToMap(parent, vv.AsMap()))
+					b = MergeTables(b, pathToMap(parent, deepCopyMap(vv.AsMap())))
 				} else {
-					b = CoalesceTables(b, pathToMap(parent, vv.AsMap()))
+					b = CoalesceTables(b, pathToMap(parent, deepCopyMap(vv.AsMap())))
 				}
 			case string:
 				child := "exports." + iv
